@@ -38,6 +38,7 @@ SITES = {
     "lca": "trees.trees.lca",
     "levels": "trees.trees.levels",
     "export_numbering": "trees.treeoutput.compute_export_numbering",
+    "levels_after_change": "trees.trees.levels",
 }
 
 
@@ -223,6 +224,54 @@ def c_levels(ctx, spec):
                 any(len(set(id(x) for x in xs)) != len(xs) for xs in lev.values()):
             return ("levels(%s)[0] == %s (exactly the constituents of each height)"
                     % (nav.nm(n), exp_lev), got_lev)
+    return None
+
+
+def c_levels_after_change(ctx, spec):
+    """the answers describe the tree as it is *now*: query levels / numbering / navigation, move one constituent to
+    another place (the result is again a well-formed tree over the same node objects), query again"""
+    trees, t, nav = _setup(ctx, spec)
+    to = ctx.mod("treeoutput")
+    trees.levels(t)
+    to.compute_export_numbering(t)
+    for n in nav.nodes:
+        trees.terminals(n), trees.children(n), list(trees.preorder(n))
+    # candidates: x (not the root) whose parent keeps another child; target: a constituent outside x's subtree
+    for x in nav.nodes:
+        p = x.parent
+        if p is None or len(p.children) < 2:
+            continue
+        sub = set(id(y) for y in nav.sub(x))
+        targets = [y for y in nav.nodes if len(y.children) > 0 and id(y) not in sub and y is not p]
+        if not targets:
+            continue
+        tgt = targets[0]
+        p.children.remove(x)
+        tgt.children.append(x)
+        x.parent = tgt
+        for c in [y for y in nav.nodes if len(y.children) > 0 and y is not t]:
+            c.data.pop("num", None)               # constituents carry no number (the first numbering wrote one)
+        nav2 = L.Nav(t)
+        lev, revl = trees.levels(t)
+        cons = [y for y in nav2.nodes if len(y.children) > 0]
+        exp = dict((nav2.nm(y), nav2.height[id(y)]) for y in cons)
+        got = dict((nav2.nm(k), v) for k, v in revl.items())
+        if got != exp:
+            return ("after moving %s under %s: levels == %s" % (nav.nm(x), nav.nm(tgt), exp), got)
+        for n in nav2.nodes:
+            if not L.same_seq(trees.children(n), nav2.kids(n)) or not L.same_seq(list(trees.terminals(n)), nav2.toks(n)):
+                return ("after moving %s under %s: children / terminals of %s follow the new structure"
+                        % (nav.nm(x), nav.nm(tgt), nav2.nm(n)), nav2.nms(trees.children(n)))
+        to.compute_export_numbering(t)
+        for a in cons:
+            for d in nav2.sub(a):
+                if d is a or len(d.children) == 0 or a is t:
+                    continue
+                if not a.data["num"] > d.data["num"]:
+                    return ("after moving %s under %s: constituent %s numbered above its descendant %s"
+                            % (nav.nm(x), nav.nm(tgt), nav2.nm(a), nav2.nm(d)),
+                            dict((nav2.nm(y), y.data.get("num")) for y in cons))
+        return None
     return None
 
 
@@ -416,11 +465,11 @@ CLAUSES = {
     "preorder": c_preorder, "postorder": c_postorder,
     "right_sibling": c_right_sibling, "left_sibling": c_left_sibling,
     "siblings_inverse": c_siblings_inverse, "dominance": c_dominance, "lca": c_lca,
-    "levels": c_levels, "export_numbering": c_export_numbering,
+    "levels": c_levels, "export_numbering": c_export_numbering, "levels_after_change": c_levels_after_change,
 }
 
 ORDER = ["ghost_axioms", "children_order", "terminals_order", "preorder", "postorder", "right_sibling",
-         "left_sibling", "siblings_inverse", "dominance", "lca", "levels", "export_numbering"]
+         "left_sibling", "siblings_inverse", "dominance", "lca", "levels", "export_numbering", "levels_after_change"]
 
 
 def generate(ctx):
